@@ -42,7 +42,9 @@ func WriteAlignment(al align.Alignment, strict, oneline, noblock bool) string {
 		al.IterateChar(func(name string, seq []uint8) bool {
 			if header {
 				if strict {
-					buf.WriteString(fmt.Sprintf("%-10s", name[:min_int(10, len(name))]))
+					// The name is truncated after 10 characters (not 10 bytes)
+					rname := []rune(name)
+					buf.WriteString(fmt.Sprintf("%-10s", string(rname[:min_int(10, len(rname))])))
 				} else {
 					buf.WriteString(name)
 					buf.WriteString("  ")
